@@ -149,8 +149,32 @@ PROPS = {
 # the theorems each property file must provide (names pinned in tools/theorems.json; regenerate it only
 # when a theorem is added).  A theorem that disappears, fails to check or depends on an axiom fails the check.
 _TH = json.load(open(os.path.join(os.path.dirname(os.path.abspath(__file__)), 'theorems.json')))
+_TM = json.load(open(os.path.join(os.path.dirname(os.path.abspath(__file__)), 'theorem_modules.json')))
 for _pid, _P in PROPS.items():
     _P['theorems'] = _TH.get(_pid, _P.get('theorems', []))
+    _P['modules'] = ['Educe.Properties.%s' % m for m in _TM.get(_pid, [_pid])]
+
+def default_level_text(pid, P):
+    ths = P.get('theorems') or []
+    parts = []
+    if ths:
+        parts.append('Rocq/Coq theorems, closed under the global context (no axioms), over the executable Gallina model of the macro: %s%s.'
+                     % (', '.join(ths[:8]), ' (+%d more)' % (len(ths) - 8) if len(ths) > 8 else ''))
+    else:
+        parts.append('Theorems for this property are being added; on this snapshot the property is decided through the correspondence and the direct search only.')
+    if P.get('streams'):
+        parts.append('The model is tied to /repo on every run by the token-level differential correspondence K1 (view: %s) on seeded generated derive inputs, valid and with one invalid construct.'
+                     % ', '.join(sorted(set(st['view'] for st in P['streams']))))
+    if P.get('k2'):
+        parts.append('The real, rustc-compiled output of the real proc macro is compared with oracles generated independently from the request on enumerated values (K2 suites: %s); a mismatch is the concrete failing input.' % ', '.join(P['k2']))
+    if P.get('direct'):
+        parts.append('The property is additionally tested directly on real in-process expansions (%s): that is the search for a failing input.' % P['direct'][0])
+    return ' '.join(parts)
+
+def default_level_note(pid, P):
+    return ('Trusted: the Coq kernel (vm_compute, no native_compute); the hand-written model of /repo/src (tied by K1 on sampled inputs, not proved equal to the Rust source); '
+            'coq/Model/Syn.v as the model of syn; coq/Sem/*.v as the meaning of the emitted Rust subset (validated by K2 against rustc); extraction (ExtrOcamlBasic, ExtrOcamlNativeString) and the OCaml / Rust / Python harness code; '
+            'the source scanners tools/scan*.py where the property depends on Gen/Sources.v.')
 
 def gen_cases(st, seed, n):
     pool = st['pool'] or modelled()
@@ -214,7 +238,7 @@ def run_check(pid, tier, seed):
                             [], time.time() - t0, 1)
         return 1
     # 1. proof obligations
-    obl, _ = vlib.coq_obligations(pid, P['theorems']) if P['theorems'] else ([], '')
+    obl, _ = vlib.coq_obligations(pid, P['theorems'], P.get('modules')) if P['theorems'] else ([], '')
     bad = vlib.forbidden_grep()
     for o in obl:
         if not o['ok']:
